@@ -1739,7 +1739,7 @@ def classify(v):
     """only the listed known finding: the literal decoder of weight_two_segment_code"""
     d = v.get('detail', {})
     what = v.get('what', '')
-    if (what.startswith('decode(encode v) != v') or what.startswith('transformed operator acts differently')) \
+    if (what.startswith('decode(encode v) != v') or 'transformed operator acts differently' in what) \
             and _contains(d.get('expr'), 'w2seg'):
         return 'C09-w2seg-decoder'
     return None
